@@ -223,7 +223,7 @@ class IBAN(common.Base):
         return True
 
     def _validate_characters(self) -> None:
-        if not re.match(r"[A-Z]{2}\d{2}[A-Z]*", self):
+        if not re.match(r"[A-Z]{2}\d{2}[A-Z]*", self, re.ASCII):
             raise exceptions.InvalidStructure(f"Invalid characters in IBAN {self!s}")
 
     def _validate_length(self) -> None:
@@ -444,7 +444,7 @@ class IBAN(common.Base):
 
 def add_bban_regex(country: str, spec: dict) -> dict:
     if "regex" not in spec:
-        spec["regex"] = re.compile(convert_bban_spec_to_regex(spec["bban_spec"]))
+        spec["regex"] = re.compile(convert_bban_spec_to_regex(spec["bban_spec"]), re.ASCII)
     return spec
 
 
